@@ -304,6 +304,160 @@ Theorem C15_voxel_id_empty_only_if_short : forall s, voxel_id s = [] -> invalid_
 Proof. exact voxel_empty_only_if_short. Qed.
 Print Assumptions C15_voxel_id_empty_only_if_short.
 
+(* ================= the KIND of the error ================= *)
+(* Api.kind_<fn> args = Some k: the call fails and the first failing check of the Go function produces an error of kind k (the code
+   of a spatialIdError, or KPlain for a fmt.Errorf value); None: the call succeeds. Each family: kind_<fn> has the error flag of the
+   owner's model (so the earlier `_rejects` theorems are corollaries), and a documented exclusion gives the stated kind. The run-time
+   check compares the observed kind with kind_<fn> (correspondence only: the property asks for a non-nil error). *)
+Theorem C15_error_text_starts_with_code : forall code detail, nocomma code = true -> before_comma (error_text code detail) = code.
+Proof. exact error_text_code. Qed.
+Print Assumptions C15_error_text_starts_with_code.
+Theorem C15_error_text_of_kind : forall k detail, k <> KPlain -> before_comma (error_text (ecode_name k) detail) = ecode_name k.
+Proof. exact error_text_of_kind. Qed.
+Print Assumptions C15_error_text_of_kind.
+(* common/object: InputValueError *)
+Theorem C15_object_kind :
+  (forall lon lat, invalid_new_point lon lat = true -> kind_new_point lon lat = Some KInputValue) /\
+  (forall lon, invalid_set_lon lon = true -> kind_set_lon lon = Some KInputValue) /\
+  (forall lat, invalid_set_lat lat = true -> kind_set_lat lat = Some KInputValue) /\
+  (forall s, invalid_new_eid s = true -> kind_new_eid s = Some KInputValue) /\
+  (forall h v, invalid_new_tile h v = true -> kind_new_tile h v = Some KInputValue) /\
+  (forall z, zoom_bad z = true -> kind_tile_set z = Some KInputValue).
+Proof. exact object_kind. Qed.
+Print Assumptions C15_object_kind.
+Theorem C15_kind_new_point_flag : forall lon lat alt, is_some (kind_new_point lon lat) = snd (new_point lon lat alt).
+Proof. exact kind_new_point_flag. Qed.
+Print Assumptions C15_kind_new_point_flag.
+Theorem C15_kind_new_eid_flag : forall s, is_some (kind_new_eid s) = negb (is_ok (new_eid s)).
+Proof. exact kind_new_eid_flag. Qed.
+Print Assumptions C15_kind_new_eid_flag.
+(* shape: points / line InputValueError; vertices: InputValueError for the ID (checked first), OptionFailedError for the option;
+   notation changes InputValueError; unknown EPSG ValueConvertError *)
+Theorem C15_points_kind : forall has_nil h v, invalid_points has_nil h v = true -> kind_points has_nil h v = Some KInputValue.
+Proof. exact points_kind. Qed.
+Print Assumptions C15_points_kind.
+Theorem C15_kind_points_flag : forall m_tan m_cos m_log has_nil l h v, points_eids m_tan m_cos m_log l h v <> None ->
+  is_some (kind_points has_nil h v) = negb (is_ok (points_api m_tan m_cos m_log has_nil l h v)).
+Proof. exact kind_points_flag. Qed.
+Print Assumptions C15_kind_points_flag.
+Theorem C15_kind_point_on_eid_flag : forall m_sinh m_atan id opt,
+  is_some (kind_point_on_eid id opt) = negb (is_ok (point_on_eid_api m_sinh m_atan id opt)).
+Proof. exact kind_point_on_eid_model. Qed.
+Print Assumptions C15_kind_point_on_eid_flag.
+Theorem C15_point_on_eid_kind_input : forall id opt, invalid_point_on_eid id 0 = true -> kind_point_on_eid id opt = Some KInputValue.
+Proof. exact point_on_eid_kind_input. Qed.
+Print Assumptions C15_point_on_eid_kind_input.
+Theorem C15_point_on_eid_kind_option : forall id opt, invalid_point_on_eid id 0 = false -> option_known opt = false ->
+  kind_point_on_eid id opt = Some KOptionFailed.
+Proof. exact point_on_eid_kind_option. Qed.
+Print Assumptions C15_point_on_eid_kind_option.
+Theorem C15_notation_and_epsg_kind :
+  (forall l, invalid_s2e l = true -> kind_s2e l = Some KInputValue) /\ (forall l, invalid_e2s l = true -> kind_e2s l = Some KInputValue) /\
+  (forall crs, invalid_project crs = true -> kind_project crs = Some KValueConvert).
+Proof. exact notation_kind. Qed.
+Print Assumptions C15_notation_and_epsg_kind.
+(* integrate: InputValueError; same flag as the C03 / C04 models *)
+Theorem C15_integrate_kind :
+  (forall ids H V, invalid_change_ext ids H V = true -> kind_change_ext ids H V = Some KInputValue) /\
+  (forall sids z, invalid_change_sid sids z = true -> kind_change_sid sids z = Some KInputValue).
+Proof. exact integrate_kind. Qed.
+Print Assumptions C15_integrate_kind.
+Theorem C15_kind_change_ext_flag : forall ids H V, is_some (kind_change_ext ids H V) = negb (is_ok (change_ext_api ids H V)).
+Proof. exact kind_change_ext_flag. Qed.
+Print Assumptions C15_kind_change_ext_flag.
+Theorem C15_kind_merge_ext_flag : forall ids H V, is_some (kind_change_ext ids H V) = negb (is_ok (merge_ext_api ids H V)).
+Proof. exact kind_merge_ext_flag. Qed.
+Print Assumptions C15_kind_merge_ext_flag.
+Theorem C15_kind_change_sid_flag : forall sids z, is_some (kind_change_sid sids z) = negb (is_ok (change_sid_api sids z)).
+Proof. exact kind_change_sid_flag. Qed.
+Print Assumptions C15_kind_change_sid_flag.
+Theorem C15_kind_merge_sid_flag : forall sids z, is_some (kind_change_sid sids z) = negb (is_ok (merge_sid_api sids z)).
+Proof. exact kind_merge_sid_flag. Qed.
+Print Assumptions C15_kind_merge_sid_flag.
+(* operated: a negative layer count is checked first and is a plain error; a malformed member then gives InputValueError *)
+Theorem C15_kind_nN_flag : forall ids H V, is_some (kind_nN ids H V) = negb (is_ok (nN_api ids H V)).
+Proof. exact kind_nN_flag. Qed.
+Print Assumptions C15_kind_nN_flag.
+Theorem C15_nN_kind_negative : forall ids H V, (H <? 0) || (V <? 0) = true -> kind_nN ids H V = Some KPlain.
+Proof. exact nN_kind_negative. Qed.
+Print Assumptions C15_nN_kind_negative.
+Theorem C15_nN_kind_malformed : forall ids H V, (H <? 0) || (V <? 0) = false -> some_bad wf5 ids = true -> kind_nN ids H V = Some KInputValue.
+Proof. exact nN_kind_malformed. Qed.
+Print Assumptions C15_nN_kind_malformed.
+(* detector: extended pair: wrong field count = plain (checked first), any other malformed argument = InputValueError (out of
+   ChangeExtendedSpatialIdsZoom); arrays: the kind of the first failing pair; spatial forms: always plain (wrapped) *)
+Theorem C15_kind_ext_overlap_flag : forall a b, is_some (kind_ext_overlap a b) = negb (is_ok (ext_overlap a b)).
+Proof. exact kind_ext_overlap_flag. Qed.
+Print Assumptions C15_kind_ext_overlap_flag.
+Theorem C15_ext_overlap_kind_arity : forall a b, negb (ar5 a) || negb (ar5 b) = true -> kind_ext_overlap a b = Some KPlain.
+Proof. exact ext_overlap_kind_arity. Qed.
+Print Assumptions C15_ext_overlap_kind_arity.
+Theorem C15_ext_overlap_kind_field : forall a b, ar5 a = true -> ar5 b = true -> invalid_ext_overlap a b = true ->
+  kind_ext_overlap a b = Some KInputValue.
+Proof. exact ext_overlap_kind_field. Qed.
+Print Assumptions C15_ext_overlap_kind_field.
+Theorem C15_kind_ext_array_flag : forall l1 l2, is_some (kind_ext_array l1 l2) = negb (is_ok (ext_array l1 l2)).
+Proof. exact kind_ext_array_flag. Qed.
+Print Assumptions C15_kind_ext_array_flag.
+Theorem C15_ext_array_kind : forall l1 l2, invalid_ext_array l1 l2 = true ->
+  exists k, kind_ext_array l1 l2 = Some k /\ (k = KPlain \/ k = KInputValue).
+Proof. exact ext_array_kind_some. Qed.
+Print Assumptions C15_ext_array_kind.
+Theorem C15_kind_sp_array_flag : forall l1 l2, is_some (kind_sp_array l1 l2) = negb (is_ok (sp_array l1 l2)).
+Proof. exact kind_sp_array_flag. Qed.
+Print Assumptions C15_kind_sp_array_flag.
+Theorem C15_sp_kind :
+  (forall a b, invalid_sp_overlap a b = true -> kind_sp_overlap a b = Some KPlain) /\
+  (forall l1 l2, invalid_sp_array l1 l2 = true -> kind_sp_array l1 l2 = Some KPlain).
+Proof. exact sp_kind. Qed.
+Print Assumptions C15_sp_kind.
+(* transform: conversions InputValueError, same flags as the C11 models *)
+Theorem C15_kind_conversions_flag :
+  (forall (par : PrimFloat.float * PrimFloat.float) index ids oh ov, is_some (kind_e2q index ids oh ov) = negb (is_ok (e2q par index ids oh ov))) /\
+  (forall (par : PrimFloat.float * PrimFloat.float) index sids oh ov, is_some (kind_s2q index sids oh ov) = negb (is_ok (s2q par index sids oh ov))) /\
+  (forall ids oq oa E O, is_some (kind_e2qa ids oq oa E O) = negb (is_ok (e2qa ids oq oa E O))) /\
+  (forall items oh ov, is_some (kind_q2e items oh ov) = negb (is_ok (q2e items oh ov))) /\
+  (forall items z, is_some (kind_q2e items z z) = negb (is_ok (q2s items z))).
+Proof. exact kind_conversions_flag. Qed.
+Print Assumptions C15_kind_conversions_flag.
+Theorem C15_conversions_kind :
+  (forall index ids oh ov, invalid_e2q index ids oh ov = true -> kind_e2q index ids oh ov = Some KInputValue) /\
+  (forall index sids oh ov, invalid_s2q index sids oh ov = true -> kind_s2q index sids oh ov = Some KInputValue) /\
+  (forall ids oq oa E O, invalid_e2qa ids oq oa = true -> kind_e2qa ids oq oa E O = Some KInputValue) /\
+  (forall items oh ov, invalid_q2e items oh ov = true -> kind_q2e items oh ov = Some KInputValue) /\
+  (forall l E O outV, invalid_tiles outV = true -> kind_tiles l E O outV = Some KInputValue) /\
+  (forall f z out E O, invalid_altkey z out = true -> kind_z2key f z out E O = Some KInputValue) /\
+  (forall k kz out E O, invalid_altkey kz out = true -> kind_key2z k kz out E O = Some KInputValue).
+Proof. exact conversions_kind. Qed.
+Print Assumptions C15_conversions_kind.
+(* fit: clearance and field count are plain errors (checked first, in that order), the ID's fields and zooms InputValueError; corridor:
+   the line's InputValueError first, then the fit's plain error for a negative radius *)
+Theorem C15_kind_fit_flag : forall id c, is_some (kind_fit id c) = match fit_struct id c with Some Err => true | _ => false end.
+Proof. exact kind_fit_struct. Qed.
+Print Assumptions C15_kind_fit_flag.
+Theorem C15_fit_kind_plain : forall id c, (c <? 0)%float || negb (ar5 id) = true -> kind_fit id c = Some KPlain.
+Proof. exact fit_kind_plain. Qed.
+Print Assumptions C15_fit_kind_plain.
+Theorem C15_fit_kind_input : forall id c, (c <? 0)%float = false -> ar5 id = true -> vertex_ok id = false -> kind_fit id c = Some KInputValue.
+Proof. exact fit_kind_input. Qed.
+Print Assumptions C15_fit_kind_input.
+Theorem C15_corridor_kind : forall has_nil h v r,
+  (invalid_points has_nil h v = true -> kind_corridor has_nil h v r = Some KInputValue) /\
+  (invalid_points has_nil h v = false -> (r <? 0)%float = true -> kind_corridor has_nil h v r = Some KPlain).
+Proof. exact corridor_kind. Qed.
+Print Assumptions C15_corridor_kind.
+Example C15_kind_nonvacuous :
+  kind_point_on_eid "x/0/0/1/0" 7 = Some KInputValue /\ kind_point_on_eid "1/0/0/1/0" 7 = Some KOptionFailed /\
+  kind_point_on_eid "1/0/0/1/0" 1 = None /\ kind_nN ["x"]%string (-1) 0 = Some KPlain /\ kind_nN ["x"]%string 1 0 = Some KInputValue /\
+  kind_ext_overlap "1/2" "1/0/0/1/0" = Some KPlain /\ kind_ext_overlap "1/0/0/1/x" "1/0/0/1/0" = Some KInputValue /\
+  kind_ext_array ["1/0/0/1/0"; "1/2"]%string ["1/1/0/1/0"; "1/0/0/1/x"]%string = Some KInputValue /\
+  kind_sp_overlap "1/b/0/0" "1/0/0/0" = Some KPlain /\ kind_fit "1/2" 0 = Some KPlain /\ kind_fit "1/0/0/1/x" 0 = Some KInputValue /\
+  kind_fit "1/0/0/1/x" (-1) = Some KPlain /\ kind_corridor true 3 3 (-1) = Some KInputValue /\ kind_corridor false 3 3 (-1) = Some KPlain /\
+  kind_project 99999 = Some KValueConvert /\ kind_project 3857 = None /\
+  error_text "InputValueError" "spatialId: x" = "InputValueError,入力チェックエラー,spatialId: x"%string /\
+  error_text "Foo" "" = "Foo,その他例外が発生"%string.
+Proof. vm_compute. repeat split; reflexivity. Qed.
+
 (* ================= non-vacuity ================= *)
 Example C15_nonvacuous_malformed :
   invalid_change_ext ["1/0/0/1/0"; "1/0/0/1/"]%string 1 1 = true /\ invalid_change_ext ["1/0/0/1/0"]%string 36 1 = true /\
